@@ -46,6 +46,9 @@ type thread struct {
 	done    bool
 	daemon  bool
 	pending *op
+	// suspended: the explorer chose to starve this thread: it runs only when
+	// the main thread has finished or nothing else can run
+	suspended bool
 }
 
 type abortSignal struct{}
@@ -76,6 +79,8 @@ type Sched struct {
 	TicksPerTicker int
 	Log            []string
 	Trace          bool
+	// DelaySpawns adds a "starve this goroutine" choice at every go statement.
+	DelaySpawns bool
 }
 
 // S is the scheduler of the execution in progress (nil outside executions:
@@ -171,6 +176,12 @@ func Go(f func()) {
 		return
 	}
 	t := s.newThread("go", false)
+	// environment choice (costs one deviation): the new goroutine is starved
+	// until main has finished or nothing else can run -- the schedule that
+	// exposes work handed to a goroutine nobody waits for
+	if s.DelaySpawns && Choose(2, "delay-spawn") == 1 {
+		t.suspended = true
+	}
 	go s.threadMain(t, f)
 }
 
@@ -220,19 +231,31 @@ func (s *Sched) schedule(self *thread) {
 			s.park(self)
 			return
 		}
-		var enabled []*thread
+		var enabled, starved []*thread
 		curEnabled := false
+		mainDone0 := s.threads[0].done
 		for _, th := range s.threads {
 			if th.done || th.pending == nil {
 				continue
 			}
 			if th.pending.satisfied || th.pending.enabled() {
+				if th.suspended && !mainDone0 && th != self {
+					starved = append(starved, th)
+					continue
+				}
 				if th == self && !self.done {
 					curEnabled = true
 				} else {
 					enabled = append(enabled, th)
 				}
 			}
+		}
+		if len(enabled) == 0 && !curEnabled && len(starved) > 0 {
+			// nothing else can run: the starved threads get their turn
+			for _, th := range starved {
+				th.suspended = false
+			}
+			enabled = starved
 		}
 		sort.Slice(enabled, func(i, j int) bool { return enabled[i].id < enabled[j].id })
 		if curEnabled {
